@@ -32,6 +32,12 @@ check("C17", "exploration",
       "model-based property testing (rapid): generated histories + algebraic laws on a projection",
       "DESIGN.md §4 C17")
 
+check("C15", "exploration",
+      "Generated scripts of every ref-taking operation (Tell, Ask, Ping, Watch, Unwatch, Kill, PipeTo, Future.PipeTo, Scheduler.Once) are executed twice on two real systems over loopback TCP - all roles local, then placed on either system by the generator - and the per-role observation records are compared (differential oracle), with a registered message and with a user Codec.",
+      "Sampling of scripts and placements; real clock with patience-only waits; error identity compared by class (what the wire carries).",
+      "property-based testing (rapid): differential oracle local vs remote over generated operation scripts",
+      "DESIGN.md §4 C15")
+
 check("C18", "exploration",
       "Generated scenarios (join orders, seed layouts, timer phases, latencies, losses, partitions, connection resets, crashes, restarts, leaves) are run with real NodeActor values in a deterministic virtual-time simulation that uses the library's wire codec; after the faults stop the clauses of the property are judged on every node's view and event stream over a bounded horizon.",
       "'Eventually' is bounded (180 s without timeouts, 12 detection timeouts with them); the actor runtime and TCP are replaced by their contracts; with failure detection active only the permanent forms of disagreement are violations, the transient ones are known findings KF-C18-3..7 (two root causes, not small patches).",
